@@ -178,9 +178,9 @@ type domUndo struct {
 }
 
 type domState struct {
-	doms  map[*Term]*bitset
-	ent   map[*Term]int
-	trail []domUndo
+	doms   map[*Term]*bitset
+	ent    map[*Term]int
+	trail  []domUndo
 	allEnt int
 }
 
